@@ -1,4 +1,4 @@
-(* Comparable.v — model of cassis/util.py cas_to_comparable_text (after fixes 7982730, 635a3a6, 218ccba, bb0740a) at ROW level:
+(* Comparable.v — model of cassis/util.py cas_to_comparable_text (after fixes 7982730, 635a3a6, 218ccba, bb0740a, 23e9ca1) at ROW level:
    a row is the list of cells handed to csv.writer.writerow, each cell as the text the csv module writes for it
    (str() of the value, None as the empty field).  CSV quoting itself is not modelled.
    Mechanism: the structures found by Cas._find_all_fs are grouped by type name in a dict (insertion order), the type
@@ -146,9 +146,15 @@ Definition NULL := "<NULL>".
 
 Definition anchor_pv (a : option string) : pv := match a with Some a => PStr a | None => PNone end.   (* dict.get *)
 
-(* _render_feature_value(value, fs_id_to_anchor, active_arrays) after fix bb0740a: `active` holds the arrays being rendered
-   further up; an array met again is referred to by its anchor.  Fuel bounds the nesting of arrays inside arrays; every
-   descent adds a new object to `active`, so |heap| + 2 is enough (ComparableProofs.render_val_fuel). *)
+(* _render_feature_value(value, fs_id_to_anchor, active_arrays) after fixes bb0740a and 23e9ca1: `active` holds the arrays
+   being rendered further up (the listed array itself when its own row is rendered).  An array met while another array is
+   being rendered (`active` non-empty) is referred to by its anchor when it has one -- it is a listed structure with a row
+   of its own -- instead of being expanded in place (23e9ca1: the expansion was exponential in the nesting); an array met
+   again is referred to by its anchor, whatever that is (bb0740a); an array held directly by a feature (`active` empty) is
+   expanded by content.  The code still recurses into an array WITHOUT anchor met inside another array, so the fuel stays:
+   every descent adds a new object to `active`, |heap| + 2 is enough (ComparableProofs.render_val_total). *)
+Definition nonempty {A} (l : list A) : bool := match l with [] => false | _ => true end.
+Definition is_some {A} (o : option A) : bool := match o with Some _ => true | None => false end.
 Fixpoint render_val (fuel : nat) (h : heap) (d : adict) (active : list oid) (v : val) : res pv :=
   match fuel with
   | O => OutOfFuel
@@ -165,7 +171,8 @@ Fixpoint render_val (fuel : nat) (h : heap) (d : adict) (active : list oid) (v :
       | None => Err EAttribute
       | Some f =>
         if is_array_name (o_type f) then
-          if memN o active then Ok (anchor_pv (dget (o_id f) d))
+          if nonempty active && is_some (dget (o_id f) d) then Ok (anchor_pv (dget (o_id f) d))
+          else if memN o active then Ok (anchor_pv (dget (o_id f) d))
           else match slot f "elements" with
                | VList l => do r <- mapM (render_val k h d (o :: active)) l ;; Ok (PList r)
                | VNone => Ok PNone                 (* elements is None: no branch of the if-chain returns *)
